@@ -77,7 +77,8 @@ def case(draw):
             "existing": existing, "body": draw(st.sampled_from(BODIES)), "no_replace": draw(st.integers(0, 5)) == 0,
             # a commentable file that already has a FILE.license companion; reaching the file through -r DIR; a second file in the same invocation
             "companion": draw(st.integers(0, 4)) == 0, "recursive": name.startswith("src/") and draw(st.integers(0, 2)) == 0,
-            "second": draw(st.sampled_from([None, None, "header", "plain"])) if plain else None,
+            # ('same-notice': the second file already declares exactly the first requested notice, and nothing else of the request)
+            "second": draw(st.sampled_from([None, None, "header", "plain", "same-notice"])) if plain else None,
             # a requested holder / LicenseRef- whose tail mirrors the comment marker of the line it will be written on; binary content that is valid UTF-8
             # the file starts with a comment block in its own style that holds nothing but an ignore block
             "ignored_top": draw(st.integers(0, 7)) == 0,
@@ -161,8 +162,11 @@ def check(ctx, c, table_walk=False):
         second = c.get("second")
         sname = ("src/" if name.startswith("src/") else "") + "second_file.py"
         second_existing = {"cop": {"SPDX-FileCopyrightText: 2011 Second Holder"}, "lic": {"ISC"}} if second == "header" else {"cop": set(), "lic": set()}
+        if second == "same-notice":
+            first_notice = sorted(AN.requested_notices(req))[:1]
+            second_existing = {"cop": set(first_notice), "lic": {"ISC"}} if first_notice else {"cop": set(), "lic": set()}
         if second:
-            files[sname] = P.header_text("python", sorted(second_existing["cop"]), sorted(second_existing["lic"])) if second == "header" else "print('second')\n"
+            files[sname] = P.header_text("python", sorted(second_existing["cop"]), sorted(second_existing["lic"])) if second_existing["cop"] or second_existing["lic"] else "print('second')\n"
         tree.write_tree(root, files)
         before_snap = AN.snapshot(root)
         # ---- command line
